@@ -7,6 +7,8 @@ station load vs that step's charge events, add / cancel counts vs summary, every
 most once, pickup waiting times inside [0, timeout + dt]."""
 from __future__ import annotations
 
+from . import framework as fw  # noqa: E402
+
 import contextlib
 import io
 import json
@@ -163,5 +165,5 @@ def worker(args) -> Dict[str, Any]:
         elif o.get("mon"):
             findings.append({"id": r["id"], "kind": "mon", "text": o["mon"][:8], "record": r})
     s = recs[0]
-    return {"n": len(recs), "steps": sum(r["meta"].get("n", 0) for r in recs), "rows": n_events, "findings": findings[:20], "n_findings": len(findings),
+    return {"n": len(recs), "steps": sum(r["meta"].get("n", 0) for r in recs), "rows": n_events, "findings": fw.pick(findings, 20), "n_findings": len(findings),
             "shapes": sorted(shapes, key=str), "sample": {"meta": s["meta"], "pickups": s["pickups"][:4], "vehicles": s["vehicles"][:3]}}
